@@ -17,7 +17,7 @@ use std::time::{Duration, Instant};
 pub fn def() -> PropDef {
     PropDef {
         id: "C16",
-        rule: "generated thread programs, each executed in a FRESH child process (so that every program races the lazy initialisation of the global tables): 2..12 threads released by a common barrier with generated start skews; per thread a list of actions: construct an engine (Naive / NoSimd / Ssse3 / Avx2 / Default - each first-touches a different subset of the exp-log, skew, Mul16, Mul128 and LogWalsh tables) or run an encode or decode round on an own object, optionally handing the object over a channel to another thread after j of its adds. oracle: every round's output digest equals the digest of the same round executed sequentially in the parent; the child must exit 0 (a panic anywhere, including lazy-initialisation poisoning, fails it). A child exceeding the watchdog is reported as inconclusive (exit 2), never as a violation. non-trivial: >=2 threads whose first actions touch different tables, or a hand-over in the middle of a round; distinct by full program",
+        rule: "generated thread programs, each executed in a FRESH child process (so that every program races the lazy initialisation of the global tables): 2..12 threads released by a common barrier with generated start skews; per thread a list of actions: construct an engine (Naive / NoSimd / Ssse3 / Avx2 / Default - each first-touches a different subset of the exp-log, skew, Mul16, Mul128 and LogWalsh tables) or run an encode or decode round (1..12 repetitions) on own objects, drawn from a per-program palette of 1..3 kinds of work so that threads do the same and different work side by side, optionally handing the object over a channel to another thread after j of its adds. oracle: every round's output digest equals the digest of the same round executed sequentially in the parent; the child must exit 0 (a panic anywhere, including lazy-initialisation poisoning, fails it). A child exceeding the watchdog is reported as inconclusive (exit 2), never as a violation. non-trivial: >=2 threads whose first actions touch different tables, or a hand-over in the middle of a round; distinct by full program",
         assumptions: &[
             "stress exploration: the OS scheduler picks the interleavings, the harness only provokes collisions (barrier, skews, fresh process per program); this cannot enumerate schedules",
         ],
@@ -28,7 +28,8 @@ pub fn def() -> PropDef {
 #[derive(Clone, Debug, PartialEq, Eq, Hash, Serialize, Deserialize)]
 pub enum Action {
     Construct(Eng),
-    Round { id: u32, dec: bool, kind: Kind, eng: Eng, cfg: Cfg, seed: u64, handover: Option<(u8, u16)> },
+    /// the same round `repeat` times (fresh object each time); every repetition must give the same result
+    Round { id: u32, dec: bool, kind: Kind, eng: Eng, cfg: Cfg, seed: u64, repeat: u8, handover: Option<(u8, u16)> },
 }
 
 #[derive(Clone, Debug, PartialEq, Eq, Hash, Serialize, Deserialize)]
@@ -42,34 +43,40 @@ pub struct Program {
     pub threads: Vec<ThreadProg>,
 }
 
-fn action() -> BoxedStrategy<Action> {
+/// (dec, kind, eng, cfg, seed): one kind of work; a program draws all its rounds from a small palette of
+/// these so that threads repeat the same and different kinds of work next to each other (this is what
+/// exposes state shared between objects, e.g. a process-wide cache keyed by the work)
+type Spec = (bool, Kind, Eng, Cfg, u64);
+
+fn spec() -> BoxedStrategy<Spec> {
     let small_cfg = (1usize..=24, 1usize..=24, prop_oneof![Just(2usize), Just(64), Just(66), Just(130)]).prop_map(|(k, r, b)| Cfg { k, r, b });
-    prop_oneof![
-        2 => gen::engine().prop_map(Action::Construct),
-        5 => (any::<bool>(), gen::kind_any(), gen::engine(), small_cfg, any::<u64>(), prop::option::weighted(0.35, (any::<u8>(), any::<u16>()))).prop_map(
-            |(dec, kind, eng, cfg, seed, handover)| {
-                let eng = if kind == Kind::Rs { Eng::Default } else { eng };
-                // orient the configuration so that the family supports it (all small: always supported)
-                Action::Round { id: 0, dec, kind, eng, cfg, seed, handover }
-            }
-        ),
-    ]
-    .boxed()
+    (prop::bool::weighted(0.6), gen::kind_any(), gen::engine(), small_cfg, any::<u64>())
+        .prop_map(|(dec, kind, eng, cfg, seed)| (dec, kind, if kind == Kind::Rs { Eng::Default } else { eng }, cfg, seed))
+        .boxed()
 }
 
 fn strategy(_t: Tier) -> BoxedStrategy<Program> {
-    prop::collection::vec((0u32..2000, prop::collection::vec(action(), 1..=4)), 2..=12)
-        .prop_map(|ts| {
+    let action = prop_oneof![
+        2 => gen::engine().prop_map(|e| (None, e, 1u8, None)),
+        6 => (any::<u8>(), prop_oneof![3 => Just(1u8), 2 => 2u8..=12], prop::option::weighted(0.3, (any::<u8>(), any::<u16>()))).prop_map(|(pi, rep, h)| (Some(pi), Eng::Naive, rep, h)),
+    ];
+    (prop::collection::vec(spec(), 1..=3), prop::collection::vec((0u32..2000, prop::collection::vec(action, 1..=4)), 2..=12))
+        .prop_map(|(palette, ts)| {
             let mut id = 0u32;
             let threads = ts
                 .into_iter()
-                .map(|(spin, mut actions)| {
-                    for a in actions.iter_mut() {
-                        if let Action::Round { id: i, .. } = a {
-                            *i = id;
-                            id += 1;
-                        }
-                    }
+                .map(|(spin, acts)| {
+                    let actions = acts
+                        .into_iter()
+                        .map(|(pi, e, repeat, handover)| match pi {
+                            None => Action::Construct(e),
+                            Some(pi) => {
+                                let (dec, kind, eng, cfg, seed) = palette[pi as usize % palette.len()];
+                                id += 1;
+                                Action::Round { id: id - 1, dec, kind, eng, cfg, seed, repeat, handover }
+                            }
+                        })
+                        .collect();
                     ThreadProg { spin, actions }
                 })
                 .collect();
@@ -79,7 +86,148 @@ fn strategy(_t: Tier) -> BoxedStrategy<Program> {
 }
 
 fn parts() -> Vec<Box<dyn PartDyn>> {
-    vec![Box::new(GenPart { name: "programs", quick: 320, thorough: 6_000, shrink_iters: 60, strat: strategy, check })]
+    vec![
+        Box::new(GenPart { name: "programs", quick: 320, thorough: 6_000, shrink_iters: 60, strat: strategy, check }),
+        Box::new(Hammer),
+    ]
+}
+
+// ----------------------------------------------------------------------
+// hammer programs: every (engine, family, encoder|decoder) combination systematically; 6 threads in
+// two groups doing two different kinds of work of that combination, many repetitions each. This is
+// what exposes state shared between objects (caches, scratch buffers keyed by the work).
+
+struct Hammer;
+
+fn hammer_combos() -> Vec<(Kind, Eng, bool)> {
+    let mut v = Vec::new();
+    for dec in [true, false] {
+        v.push((Kind::Rs, Eng::Default, dec));
+        for kind in [Kind::Default, Kind::High, Kind::Low] {
+            for eng in engines() {
+                v.push((kind, eng, dec));
+            }
+        }
+    }
+    v
+}
+
+fn hammer_program(kind: Kind, eng: Eng, dec: bool, seed: u64, reps: u8, variant: u64) -> Program {
+    let mut rng = gen::Xs::new(seed ^ crate::runner::hash_of(&(kind, eng, dec, variant)));
+    // two kinds of work inside the family's natural region: low rate wants k <= r, high rate k >= r
+    let mut spec = |rng: &mut gen::Xs| {
+        let a = 2 + rng.below(6);
+        let b = a + rng.below(6);
+        let (k, r) = match kind {
+            Kind::Low => (a, b),
+            Kind::High => (b, a),
+            _ => {
+                if rng.below(2) == 0 {
+                    (a, b)
+                } else {
+                    (b, a)
+                }
+            }
+        };
+        (Cfg { k, r, b: [2usize, 64, 66][rng.below(3)] }, rng.next())
+    };
+    let (c1, s1) = spec(&mut rng);
+    let (c2, s2) = if variant % 2 == 0 { (c1, rng.next()) } else { spec(&mut rng) };
+    let mut threads = Vec::new();
+    for t in 0..6u32 {
+        let (cfg, sd) = if t % 2 == 0 { (c1, s1) } else { (c2, s2) };
+        threads.push(ThreadProg {
+            spin: (rng.below(200)) as u32,
+            actions: vec![Action::Round { id: t, dec, kind, eng, cfg, seed: sd, repeat: reps, handover: None }],
+        });
+    }
+    Program { threads }
+}
+
+impl PartDyn for Hammer {
+    fn name(&self) -> &'static str {
+        "hammer"
+    }
+    fn run(&self, run: &mut crate::runner::Run) {
+        if run.failed() {
+            return;
+        }
+        let t0 = Instant::now();
+        let combos = hammer_combos();
+        let variants: u64 = run.tier.pick(1, 6);
+        let reps: u8 = run.tier.pick(120, 250);
+        let mut jobs = Vec::new();
+        for v in 0..variants {
+            for &(kind, eng, dec) in &combos {
+                jobs.push(hammer_program(kind, eng, dec, run.seed, reps, v + run.seed % 2));
+            }
+        }
+        let next = std::sync::atomic::AtomicUsize::new(0);
+        let results = std::sync::Mutex::new(Vec::new());
+        let workers = (run.threads / 6).max(1);
+        std::thread::scope(|sc| {
+            for _ in 0..workers {
+                sc.spawn(|| loop {
+                    let i = next.fetch_add(1, std::sync::atomic::Ordering::Relaxed);
+                    if i >= jobs.len() {
+                        break;
+                    }
+                    let mut st = Stats::default();
+                    let r = crate::runner::no_panic(|| check(&jobs[i], &mut st));
+                    let r = match r {
+                        Ok(Ok(())) => Ok(()),
+                        Ok(Err(f)) => Err(f.msg),
+                        Err(p) => Err(p),
+                    };
+                    results.lock().unwrap().push((i, r, st));
+                });
+            }
+        });
+        let mut stats = Stats::default();
+        let mut failure = None;
+        let mut res = results.into_inner().unwrap();
+        res.sort_by_key(|x| x.0);
+        for (i, r, st) in res {
+            stats.evaluations += 1;
+            stats.nontrivial_key(crate::runner::hash_of(&jobs[i]));
+            for (k, v) in st.counters {
+                *stats.counters.entry(k).or_insert(0) += v;
+            }
+            if let Err(m) = r {
+                if failure.is_none() {
+                    failure = Some((i, m));
+                }
+            }
+        }
+        stats.classes.insert("combinations".into(), combos.len() as u64);
+        stats.classes.insert("repetitions_per_thread".into(), reps as u64);
+        stats.samples.push(serde_json::to_value(&jobs[0]).unwrap());
+        let wd = stats.counters.get("inconclusive_watchdog").copied().unwrap_or(0);
+        if wd > 0 {
+            run.inconclusive.push(format!("hammer: {wd} child process(es) hit the watchdog"));
+        }
+        run.record_part(self.name(), stats, false, "every engine x family x {encoder, decoder}: 6 threads, two kinds of work, many repetitions", t0);
+        if let Some((i, m)) = failure {
+            if crate::runner::is_harness_panic(&m) {
+                run.inconclusive.push(format!("hammer: {m}"));
+            } else {
+                run.record_failure(self.name(), serde_json::to_value(&jobs[i]).unwrap(), m);
+            }
+        }
+    }
+    fn replay(&self, case: &serde_json::Value) -> Result<(), String> {
+        let p: Program = serde_json::from_value(case.clone()).map_err(|e| e.to_string())?;
+        let mut st = Stats::default();
+        // a race needs luck: give the saved program several chances
+        for _ in 0..5 {
+            match crate::runner::no_panic(|| check(&p, &mut st)) {
+                Ok(Ok(())) => {}
+                Ok(Err(f)) => return Err(f.msg),
+                Err(p) => return Err(p),
+            }
+        }
+        Ok(())
+    }
 }
 
 // ----------------------------------------------------------------------
@@ -89,16 +237,25 @@ struct Pending {
     id: u32,
     obj: Obj,
     calls: Vec<Call>,
+    /// further repetitions of the same round on fresh objects: (count, dec, kind, eng, cfg, seed)
+    again: Option<(u8, bool, Kind, Eng, Cfg, u64)>,
 }
 
 fn round_calls(dec: bool, c: Cfg, seed: u64) -> Vec<Call> {
     let mut v = Vec::new();
     if dec {
-        let nrec = c.k.min(c.r);
-        for i in nrec..c.k {
+        // seeded loss pattern: L originals withheld, replaced by L recovery shards
+        let mut rng = gen::Xs::new(seed ^ 0xC16);
+        let maxl = c.k.min(c.r);
+        let l = 1 + rng.below(maxl);
+        let mut oi: Vec<usize> = (0..c.k).collect();
+        rng.shuffle(&mut oi);
+        let mut ri: Vec<usize> = (0..c.r).collect();
+        rng.shuffle(&mut ri);
+        for &i in &oi[l..] {
             v.push(Call::AddO(i, shard_bytes(seed, false, i, c.b)));
         }
-        for i in 0..nrec {
+        for &i in &ri[..l] {
             v.push(Call::AddR(i, shard_bytes(seed, true, i, c.b)));
         }
     } else {
@@ -119,6 +276,22 @@ fn finish(mut p: Pending) -> Result<(u32, u64), String> {
         }
         last = out.brief();
     }
+    if let Some((n, dec, kind, eng, cfg, seed)) = p.again {
+        for rep in 1..n {
+            let mut obj = Obj::make(dec, kind, eng, cfg).map_err(|e| format!("round {}: construction failed: {e:?}", p.id))?;
+            let mut l = String::new();
+            for call in &round_calls(dec, cfg, seed) {
+                let out = obj.apply(call)?;
+                if !out.is_ok() {
+                    return Err(format!("round {} repetition {rep}: call failed: {}", p.id, out.brief()));
+                }
+                l = out.brief();
+            }
+            if l != last {
+                return Err(format!("round {} repetition {rep}: the same round on a fresh object gives a different result than its first execution: {l} vs {last}", p.id));
+            }
+        }
+    }
     Ok((p.id, crate::runner::hash_of(&last)))
 }
 
@@ -130,9 +303,10 @@ fn start(action: &Action) -> Result<Option<(Pending, Option<(u8, u16)>)>, String
             });
             Ok(None)
         }
-        Action::Round { id, dec, kind, eng, cfg, seed, handover } => {
+        Action::Round { id, dec, kind, eng, cfg, seed, repeat, handover } => {
             let obj = Obj::make(*dec, *kind, *eng, *cfg).map_err(|e| format!("round {id}: construction failed: {e:?}"))?;
-            Ok(Some((Pending { id: *id, obj, calls: round_calls(*dec, *cfg, *seed) }, *handover)))
+            let again = if *repeat > 1 { Some((*repeat, *dec, *kind, *eng, *cfg, *seed)) } else { None };
+            Ok(Some((Pending { id: *id, obj, calls: round_calls(*dec, *cfg, *seed), again }, *handover)))
         }
     }
 }
